@@ -59,10 +59,12 @@ Theorem C12_wf_preserved :
   (forall m c pick m' rep bc sp, WFm m -> valid_pick m pick -> mstep m c pick = Ok (m', rep, bc, sp) -> WFm m') /\
   (forall m rates new_opt m' fl, WFm m -> change_conn_state m rates new_opt = Ok (m', fl) -> WFm m') /\
   (forall m peers, WFm m -> WFm (fst (handle_tracker_resp m peers))) /\
-  (forall m p pick, WFm m -> pick_ok m p pick = true -> valid_pick m pick).
+  (forall m p pick, WFm m -> pick_ok m p pick = true -> valid_pick m pick) /\
+  (forall m a, WFm m -> WFm (fst (accept_peer m a))).
 Proof.
   split; [exact WF_init|]. split; [intros; eapply WF_step; eassumption|]. split; [intros; eapply WF_rotation; eassumption|].
-  split; [intros; apply WF_tracker_resp; assumption|]. intros; eapply pick_ok_valid; eassumption.
+  split; [intros; apply WF_tracker_resp; assumption|]. split; [intros; eapply pick_ok_valid; eassumption|].
+  intros; apply accept_WF; assumption.
 Qed.
 (* ... and `sendable` is what the tasks guarantee: in every reachable composition, the command an event makes the task
    send (a Have index below the piece count, PieceDone/PieceCancel only with a piece in progress -- which by the pair
@@ -89,6 +91,32 @@ Theorem C12_rotation_handles : forall m rates new_opt,
   (forall a, In a (map fst rates) -> pget (m_peers m) a <> None) -> (forall a, In a new_opt -> pget (m_peers m) a <> None) ->
   exists m' fl, change_conn_state m rates new_opt = Ok (m', fl).
 Proof. exact rotation_handles. Qed.
+
+(* ... put together over reachable states (review): well-formedness is not an assumption there -- `mreach` starts well
+   formed and takes chooser answers in range, and every move keeps WFm (`mreach_WF`) -- so in every state the manager can
+   reach that is composed with a task, the first command an event makes that task send is handled with Ok *)
+Theorem C12_reachable_wf : forall m, mreach m -> WFm m.
+Proof. exact mreach_WF. Qed.
+Theorem C12_reachable_task_command_handled : forall sha1 cf disk ovf a m s ev r k rest pick,
+  mreach m -> creach sha1 cf disk ovf a m s -> c_pieces_num cf = pieces_n m ->
+  cmds_of (acts_of (hstep sha1 cf disk ovf s ev r)) = k :: rest -> valid_pick m pick ->
+  exists m' rep bc sp, mstep m (to_cmd a k) pick = Ok (m', rep, bc, sp).
+Proof.
+  intros sha1 cf disk ovf a m s ev r k rest pick HR HC Hn Hk Hv.
+  apply reachable_manager_handles; [exact HR | eapply own_first_command_deliverable; eassumption | exact Hv].
+Qed.
+
+Example C12_reachable_nonvacuous :
+  mreach ex_m1 /\ creach ex_sha1 ex_cf ex_disk true 1 ex_m1 (h_init None) /\ c_pieces_num ex_cf = pieces_n ex_m1.
+Proof.
+  split; [|split].
+  - change ex_m1 with (mkmgr (m_status ex_m0) (pset (m_peers ex_m0) 1 (new_peer None (length (m_plens ex_m0)))) (m_candidates ex_m0)
+                             (m_round ex_m0) (m_extracted ex_m0) (m_plens ex_m0)).
+    apply mreach_add; [apply mreach_init; [reflexivity | intros i n H; unfold nthN in H; destruct (N.to_nat i) as [|[|k]]; discriminate] | reflexivity].
+  - apply (cr_start ex_sha1 ex_cf ex_disk true 1 ex_m0 ex_m1 None); [reflexivity | | discriminate].
+    unfold EnvKeeps. cbn. intros p' H. injection H as <-. reflexivity.
+  - reflexivity.
+Qed.
 
 (* Incoming connections (Session::spawn_peer_listener = accept_peer, part of `mreach`): the invariant survives them because
    an address that is still connected is not taken a second time.  The pinned listener had no such check and is refuted:
@@ -127,6 +155,8 @@ Print Assumptions C12_task_commands_sendable.
 Print Assumptions C12_manager_handles.
 Print Assumptions C12_task_commands_deliverable.
 Print Assumptions C12_rotation_handles.
+Print Assumptions C12_reachable_wf.
+Print Assumptions C12_reachable_task_command_handled.
 Print Assumptions C12_listener_repaired.
 Print Assumptions C12_listener_keeps_invariant.
 Print Assumptions C12_listener_pinned_refuted.
